@@ -170,7 +170,8 @@ class LazyCall:
 
     def set_cached_file(self, cached_file, name):
         if isinstance(self.x, LazyCall):
-            self.x.set_cached_file(cached_file, name)
+            # every stage caches its own result: a distinct file per stage
+            self.x.set_cached_file(cached_file, name + "_x")
         self.cached_file = cached_file
         self.name = name
 
